@@ -94,12 +94,14 @@ def build(sc, p, fname):
             sc.cmd(pre + "addmaterial", q(d["name"]), n17(d.get("Mu_x", 1.0)), n17(d.get("Mu_y", 1.0)), n17(d.get("H_c", 0.0)), n17(d.get("J_re", 0.0)),
                    n17(d.get("Sigma", 0.0)), n17(d.get("d_lam", 0.0)), n17(d.get("Phi_h", 0.0)), n17(d.get("LamFill", 1.0)), str(d.get("LamType", 0)),
                    n17(d.get("Phi_hx", 0.0)), n17(d.get("Phi_hy", 0.0)), str(d.get("NStrands", 0)), n17(d.get("WireD", 0.0)))
-            for (B, H) in d.get("BH", []):
+            # points of a table may be given in any order (the command keeps the table sorted)
+            for (B, H) in sc.rng.sample(d.get("BH", []), len(d.get("BH", []))):
                 sc.cmd(pre + "addbhpoint", q(d["name"]), n17(B), n17(H))
         elif k == "e":
             sc.cmd(pre + "addmaterial", q(d["name"]), n17(d.get("ex", 1.0)), n17(d.get("ey", 1.0)), n17(d.get("qv", 0.0)))
         else:
             sc.cmd(pre + "addmaterial", q(d["name"]), n17(d.get("Kx", 1.0)), n17(d.get("Ky", 1.0)), n17(d.get("qv", 0.0)), n17(d.get("Kt", 0.0)))
+            # T-k points are given in ascending order: hi_addtkpoint appends (FEMM's own handler does the same), only mi_addbhpoint sorts
             for (T, K) in d.get("TK", []):
                 sc.cmd(pre + "addtkpoint", q(d["name"]), n17(T), n17(K))
     for d in p.circprops:
@@ -230,10 +232,10 @@ def main(argv):
                         m.setdefault("Phi_hy", m.get("Phi_h", 0.0))
                         if rng.random() < 0.25 and "BH" not in m and m.get("Mu_x", 1.0) > 1:
                             mu = m["Mu_x"]
-                            m["BH"] = [(0.0, 0.0)] + [(b, b / (4e-7 * math.pi * mu) * (1 + 0.2 * b * b)) for b in (0.5, 1.0, 1.5, 2.0)]
+                            m["BH"] = [(0.0, 0.0)] + [(b, b / (4e-7 * math.pi * mu) * (1 + 0.2 * b * b)) for b in (0.25, 0.5, 1.0, 1.5, 2.0, 2.5)]
                 if kind == "h" and rng.random() < 0.4:
                     m = rng.choice(p.blockprops)
-                    m["TK"] = [(250.0, 1.0), (350.0, 2.0), (450.0, 2.5)]
+                    m["TK"] = [(250.0, 1.0), (300.0, 1.4), (350.0, 2.0), (400.0, 2.2), (450.0, 2.5)]
                 for lab in p.labels:
                     if lab["meshsize"] <= 0 and rng.random() < 0.7:
                         lab["meshsize"] = rng.choice([1.0, 1.5, 0.75])
